@@ -305,6 +305,11 @@ class PrintrunWriter(BaseWriter):
             self._abort_on_device_error()
             time.sleep(POLLING_INTERVAL)
 
+        # An error may have been reported while nothing was pending
+
+        if self._device_error is not None:
+            self._abort_on_device_error()
+
         self._logger.info("Pending operations completed")
 
     def _wait_for_acknowledgment(self) -> None:
